@@ -55,14 +55,31 @@ def scan_crate(crate):
             continue
         module = fn[:-3]
         attrs = {}
-        descs = []
+        macro_attrs = {}  # attributes written inside a macro_rules body apply to every invocation
+        cur_macro = None
+        last_inv = None  # (macro, attrs) of the directly preceding invocation line
         for raw in open(os.path.join(src, fn), encoding="utf-8"):
             l = raw.strip()
+            mm = re.match(r"^macro_rules!\s+(\w+)\s*\{", l)
+            if mm:
+                cur_macro = mm.group(1)
+                attrs = {}
+                continue
+            if raw.startswith("}"):
+                cur_macro = None
             m = re.match(r"^//\s*@([a-z-]+)\s+(.*)$", l)
             if m:
                 attrs.setdefault(m.group(1), []).append(m.group(2).strip())
                 continue
             if l.startswith("//"):
+                continue
+            if not l:
+                last_inv = None
+            if cur_macro and re.match(r"^p?harness!\(\$", l):
+                tgt = macro_attrs.setdefault(cur_macro, {})
+                for k, v in attrs.items():
+                    tgt.setdefault(k, []).extend(v)
+                attrs = {}
                 continue
             mi = INVOKE.match(l)
             if not mi or mi.group(1) in ("macro_rules", "assert", "vcover", "matches", "vec", "format", "println", "assert_eq", "debug_assert", "panic", "unreachable"):
@@ -71,14 +88,18 @@ def scan_crate(crate):
                 continue
             head = l.split("|")[0]
             names = TOKEN.findall(head)
+            if names and not attrs and last_inv and last_inv[0] == mi.group(1):
+                # a run of invocations of the same macro shares the attributes written above the first
+                attrs = {k: list(v) for k, v in last_inv[1].items() if k != "tier-of"}
+            own = {k: list(v) for k, v in attrs.items()}
+            if names and mi.group(1) in macro_attrs:
+                merged = {k: list(v) for k, v in macro_attrs[mi.group(1)].items()}
+                for k, v in attrs.items():
+                    merged[k] = merged.get(k, []) + v if k in ("bound", "assume", "also", "tier-of") else v
+                attrs = merged
             for n in names:
                 h = Harness(crate=crate, module=module, name=n, prop="C" + n[1:3], macro=mi.group(1))
                 h.tier = attrs.get("tier", ["quick"])[-1]
-                for ov in attrs.get("tier-of", []):
-                    nm, tr = ov.split()
-                    if nm == n:
-                        h.tier = tr
-                        h.timeout = h.timeout or 2400
                 if "unwind" in attrs:
                     h.unwind = int(attrs["unwind"][-1])
                 for u in attrs.get("unwindset", []):
@@ -87,12 +108,18 @@ def scan_crate(crate):
                     h.timeout = int(attrs["timeout"][-1])
                 if "mem" in attrs:
                     h.mem_gb = int(attrs["mem"][-1])
+                for ov in attrs.get("tier-of", []):
+                    nm, tr = ov.split()
+                    if nm == n:
+                        h.tier = tr
+                        h.timeout = h.timeout or 2400
                 h.stubs = attrs.get("stub", [])
                 h.bounds = attrs.get("bound", [])
                 h.assumes = attrs.get("assume", [])
                 h.desc = " ".join(attrs.get("desc", []))
                 h.also = [a.strip() for x in attrs.get("also", []) for a in x.split(",")]
                 out.append(h)
+            last_inv = (mi.group(1), own) if names else None
             attrs = {}
     return out
 
